@@ -2156,7 +2156,9 @@ fn part_c(rep: &mut Report, selftest: bool) -> (u64, u64, u64) {
     // which single non-baseline argument shapes fail on their own?
     let mut failing_tags: BTreeSet<&'static str> = BTreeSet::new();
     for (c, o) in cases.iter().zip(&outs) {
-        if c.tags.len() == 1 && (o.got != o.want || o.obs_a != o.obs_b) {
+        // (a difference explained by the engine's own columnar-vs-row disagreement is not the literal's fault)
+        let columnar = o.alt.as_ref().is_some_and(|a| *a == o.got) && o.obs_a == o.obs_b;
+        if c.tags.len() == 1 && !columnar && (o.got != o.want || o.obs_a != o.obs_b) {
             failing_tags.insert(c.tags[0]);
         }
     }
